@@ -34,7 +34,7 @@ class C02(core.Check):
     def correspondence(self, res, boost):
         jesse_env.setup()
         rng = random.Random(self.seed * 7919 + 2)
-        engcorr.compare_sessions(res, self.sessions(self.budget(100, 700, boost), rng))
+        engcorr.compare_sessions(res, self.sessions(self.budget(100, 700, boost), rng) + engcorr.micro_sessions(rng, self.budget(80, 800, boost)))
 
     def oracle(self, res, boost):
         jesse_env.setup()
@@ -49,7 +49,7 @@ class C02(core.Check):
                 w.setdefault('syms', sorted({x for x, _ in w['routes']}))
                 w.setdefault('balance', 100_000)
                 witnesses.append(w)
-        for sess in witnesses + self.sessions(self.budget(180, 1200, boost), rng):
+        for sess in witnesses + self.sessions(self.budget(180, 1200, boost), rng) + engcorr.micro_sessions(rng, self.budget(250, 3000, boost)):
             cands = engcorr.candles_of(sess)
             ev, tr, err = engcorr.run_real(sess, cands)
             step = 1
@@ -70,7 +70,8 @@ class C02(core.Check):
             for (what, k, info) in bad[:3]:
                 res.fail(**{'class': f'matching/{what}/' + ('fast' if sess['fast'] else 'step'),
                             'input': {'session': {kk: sess[kk] for kk in ('kind', 'fee', 'leverage', 'isolated', 'fast', 'routes',
-                                                                         'droutes', 'n', 'scripts', 'candle_seed', 'vol', 'gap_prob')}},
+                                                                         'droutes', 'n', 'scripts', 'candle_seed', 'vol', 'gap_prob', 'rows')
+                                                  if kk in sess}},
                             'observed': {'order': k, 'info': {a: b for a, b in info.items()}},
                             'params': {'simulator': 'fast' if sess['fast'] else 'step',
                                        'in_gap_only': bool(info.get('in_gap_only')),
